@@ -340,4 +340,8 @@ def sum_product(x, y):
         >>> sum_prod(x, y)
         tensor([-0.1201,  0.7353,  1.0557])
     """
-    return 2 * torch.arctanh(torch.tanh(x / 2) * torch.tanh(y / 2))
+    out = 2 * torch.arctanh(torch.tanh(x / 2) * torch.tanh(y / 2))
+    # For small |x|, |y| the product underflows to zero and the sign - which carries the
+    # decision - would be lost; keep it on the smallest normal magnitude instead.
+    tiny = torch.finfo(out.dtype).tiny
+    return torch.where(out == 0, torch.sign(x) * torch.sign(y) * tiny, out)
